@@ -114,6 +114,12 @@ def walk_tree(t, leaf, iv, out, T=None):
         neg = False
         while isinstance(c, tuple) and c[0] == "not":
             c, neg = c[1], not neg
+        if isinstance(c, tuple) and c[0] in ("and", "or"):
+            # a && b ? X : Y  =  a ? (b ? X : Y) : Y ;   a || b ? X : Y  =  a ? X : (b ? X : Y)
+            X, Y = (t[3], t[2]) if neg else (t[2], t[3])
+            if c[0] == "and":
+                return walk_tree(("g", c[1], ("g", c[2], X, Y), Y), leaf, iv, out, T)
+            return walk_tree(("g", c[1], X, ("g", c[2], X, Y)), leaf, iv, out, T)
         if not (isinstance(c, tuple) and c[0] == "cmp"):
             raise ev.Inconclusive("Print branches on %s (expected comparisons of |value| with constants)" % ev.show(t[1])[:120])
         op, x, y = c[1], c[2], c[3]
